@@ -34,6 +34,10 @@ pub enum Act {
     /// the SIMD alpha division legitimately differ by one unit on rare (colour, alpha) pairs, so a
     /// Resizer whose alpha kernels run on another back-end than the selected one shows up here
     BigAlpha { pt: PT },
+    /// an all-0xFF image (opaque white for 8-bit types): leaves bytes in the kept scratch buffers
+    /// that decode to NaN as f32 and to the maximum as any integer - whatever a later, smaller call
+    /// reads beyond its own image (even with weight 0) shows up
+    White { geo: usize, alg: Alg },
     /// invalid crop box
     BadCrop { pt: PT },
     /// source and destination of different pixel types
@@ -165,6 +169,14 @@ pub fn alphabet(tier: Tier, sub: bool) -> Vec<Act> {
             }
         }
     }
+    // all-0xFF content, larger (in bytes) than the later float calls: alpha buffer and supersampling buffer
+    v.push(Act::White { geo: 14, alg: Alg::Conv(F::Box) });
+    v.push(Act::White { geo: 14, alg: Alg::SS(F::Box, 2) });
+    if sub {
+        // the float alpha types of geometry 4 (2x down-scale in x: odd window lengths at the row end)
+        v.push(Act::Resize { pt: PT::F32x2, geo: 4, alg: Alg::Conv(F::Bilinear), alpha: true, frac: false });
+        v.push(Act::Resize { pt: PT::F32x2, geo: 4, alg: Alg::SS(F::Bilinear, 1), alpha: false, frac: false });
+    }
     v.push(Act::BigAlpha { pt: PT::U16x2 });
     if !sub {
         v.push(Act::BigAlpha { pt: PT::U16x4 });
@@ -252,6 +264,16 @@ fn exec(rz: &mut Resizer, act: Act, key: u64) -> (String, Vec<u8>) {
                 if c == nc - 1 { v.max(1) as f64 } else { v as f64 }
             });
             let mut o = Opts::new(Alg::Conv(F::Bilinear));
+            o.alpha = true;
+            let mut dst = Raw::filled(pt, dw, dh, 0x5A);
+            let r = resize_into(rz, &src, &mut dst, &o);
+            (format!("{:?}", r), dst.bytes().to_vec())
+        }
+        Act::White { geo, alg } => {
+            let pt = PT::U8x4;
+            let ((sw, sh), (dw, dh)) = GEOS[geo];
+            let src = Raw::from_fn(pt, sw, sh, |_, _, _| 255.0);
+            let mut o = Opts::new(alg);
             o.alpha = true;
             let mut dst = Raw::filled(pt, dw, dh, 0x5A);
             let r = resize_into(rz, &src, &mut dst, &o);
@@ -405,6 +427,7 @@ fn act_class(a: Act) -> String {
         Act::Interior { pt, alg, .. } => format!("resize interior crop {:?} {} alpha=true", pt, crate::props::c01::alg_class(alg)),
         Act::Tile { pt, alg, .. } => format!("resize tile {:?} {}", pt, crate::props::c01::alg_class(alg)),
         Act::BigAlpha { pt } => format!("resize 64x48 full-range alpha {:?}", pt),
+        Act::White { alg, .. } => format!("resize all-0xFF U8x4 {}", crate::props::c01::alg_class(alg)),
         o => format!("{:?}", o),
     }
 }
@@ -554,7 +577,7 @@ pub fn prop(tier: Tier, _seed: u64) -> Prop {
         }
         out
     }));
-    p.rule = format!("explicit-state search over Resizer histories: full alphabet of {} actions (8 pixel types with pixel sizes 1,2,3,6,8,4,12,16 x 4 geometries incl. larger-then-smaller x {{Nearest, Convolution(Lanczos3), Interpolation(Bilinear), SuperSampling(Box,2)}}, alpha on, fractional crops, sprites with long zero runs and alpha-aware up-scales of an interior crop box (middle third, Lanczos3/CatmullRom) for all six alpha types, size ladders of the three scratch buffers, equally sized tiles at three crop origins (Nearest / SuperSampling / Convolution), a 64x48 full-range 16-bit alpha resize, two erroring calls, reset_internal_buffers, clone, set_cpu_extensions) to depth {}, and a {}-action sub-alphabet to depth {}; every transition executes the real operation on the reused Resizer and on Resizer::new() with the same back-end and compares result value and destination bytes; states are deduplicated on the Debug rendering of the Resizer (back-end + full contents of the three scratch buffers) and the depth", full.len(), d_full, sub.len(), d_sub);
+    p.rule = format!("explicit-state search over Resizer histories: full alphabet of {} actions (8 pixel types with pixel sizes 1,2,3,6,8,4,12,16 x 4 geometries incl. larger-then-smaller x {{Nearest, Convolution(Lanczos3), Interpolation(Bilinear), SuperSampling(Box,2)}}, alpha on, fractional crops, sprites with long zero runs and alpha-aware up-scales of an interior crop box (middle third, Lanczos3/CatmullRom) for all six alpha types, size ladders of the three scratch buffers, equally sized tiles at three crop origins (Nearest / SuperSampling / Convolution), a 64x48 full-range 16-bit alpha resize, all-0xFF images (NaN bit patterns left in the scratch buffers), two erroring calls, reset_internal_buffers, clone, set_cpu_extensions) to depth {}, and a {}-action sub-alphabet to depth {}; every transition executes the real operation on the reused Resizer and on Resizer::new() with the same back-end and compares result value and destination bytes; states are deduplicated on the Debug rendering of the Resizer (back-end + full contents of the three scratch buffers) and the depth", full.len(), d_full, sub.len(), d_sub);
     p.bounds = json!({"actions_full": full.len(), "depth_full": d_full, "actions_sub": sub.len(), "depth_sub": d_sub});
     p.assumptions = vec!["the Debug rendering of Resizer shows every field that can influence later calls (cpu extensions, MulDiv, the three Vec<u8> buffers); capacity is added through size_of_internal_buffers()".into(), "allocator alignment of the scratch buffers is whatever the system allocator returns here; deliberately misaligned allocations are exercised in C03".into()];
     p
